@@ -216,13 +216,14 @@ def contractible_pair(sr, rng, sym, fermionic, na=None, nb=None, ncon=None, maxn
         ncon = 0 if (m == 0 or rng.random() < 0.12) else rng.randint(1, m)
     maxc = kw.pop("maxc", 3)
     maxd = kw.pop("maxd", 3)
-    ia = [rand_index(sr, rng, sym, maxc=maxc, maxd=maxd) for _ in range(na)]
+    ikw = {k: kw.pop(k) for k in ("minc", "p_single") if k in kw}
+    ia = [rand_index(sr, rng, sym, maxc=maxc, maxd=maxd, **ikw) for _ in range(na)]
     axes_a = rng.sample(range(na), ncon)
     axes_b = rng.sample(range(nb), ncon)
     ib = [None] * nb
     for x_, y_ in zip(axes_a, axes_b):
         ib[y_] = conj_index(sr, ia[x_])
-    ib = [rand_index(sr, rng, sym, maxc=maxc, maxd=maxd) if v is None else v for v in ib]
+    ib = [rand_index(sr, rng, sym, maxc=maxc, maxd=maxd, **ikw) if v is None else v for v in ib]
     values = values or Values(rng)
     kind = kw.pop("kind", None)
     if kind is None:
